@@ -3,6 +3,8 @@ from __future__ import annotations
 
 import itertools
 
+import math
+
 import numpy as np
 from hypothesis import strategies as st
 
@@ -33,6 +35,7 @@ def coord_sets(draw, min_n=1, max_n=9, spacing_min=None):
     dim = draw(st.sampled_from([2, 2, 3]))
     n = draw(st.integers(min_n, max_n))
     kind = draw(st.sampled_from(["grid", "grid", "random", "mixed"]))
+    whole = draw(st.integers(0, 3)) == 0  # grid points exactly on whole numbers
     pts = []
     seen = set()
     tries = 0
@@ -49,7 +52,7 @@ def coord_sets(draw, min_n=1, max_n=9, spacing_min=None):
         if key in seen:
             continue
         seen.add(key)
-        p = [b + draw(st.sampled_from(PERT)) for b in base]
+        p = base if kind == "grid" and whole else [b + draw(st.sampled_from(PERT)) for b in base]
         if draw(st.integers(0, 9)) == 0:
             p = [(-0.0 if v == 0.0 else v) for v in p]
         pts.append(p)
@@ -102,6 +105,17 @@ def check_perm(case, ctx: Ctx):
             ctx.fail(C, "number_of_traps", "")
         if lay.dimensionality != case["dim"]:
             ctx.fail(C, "dimensionality", "")
+    # the same set given as integers (Python ints, int32) instead of floats is the same set
+    if all(float(v).is_integer() and not (v == 0 and math.copysign(1.0, v) < 0) for p_ in coords for v in p_):
+        ctx.label("integer_valued_coordinates")
+        ints = [[int(v) for v in p_] for p_ in coords]
+        for what, alt in (("python_int", ints), ("int32", np.array(ints, dtype=np.int32))):
+            lc = _mk_layout(ctx, alt, C)
+            if not (la == lc) or not (lc == la) or hash(la) != hash(lc):
+                ctx.fail(C, f"eq_depends_on_number_type:{what}",
+                         f"RegisterLayout({coords}) != the same coordinates given as {what}")
+            if la.static_hash() != lc.static_hash() or repr(la) != repr(lc):
+                ctx.fail(C, f"static_hash_depends_on_number_type:{what}", f"{coords}")
     if not (la == lb) or not (lb == la):
         ctx.fail(C, "eq_order_dependent", f"{coords} vs perm {perm}")
     if la.static_hash() != lb.static_hash():
@@ -113,6 +127,21 @@ def check_perm(case, ctx: Ctx):
         ld = _mk_layout(ctx, coords[:-1], C)
         if ld == la or ld.static_hash() == la.static_hash():
             ctx.fail(C, "eq_too_weak", "layout equals a strict subset")
+    # the numbering depends only on the coordinates the layout was made from: scratch work on
+    # arrays it hands out (centring for a plot, scaling) is not a change of the layout
+    h0 = la.static_hash()
+    for what, get in (("coords", lambda: la.coords), ("sorted_coords", lambda: la.sorted_coords),
+                      ("traps_dict[0]", lambda: la.traps_dict[0])):
+        arr = get()
+        try:
+            arr += 1.25
+        except (ValueError, TypeError):  # read-only array: fine too
+            continue
+        td = la.traps_dict
+        got = np.array([td[i] for i in range(len(td))], dtype=float)
+        if not np.array_equal(got, exp) or la.static_hash() != h0 or not (la == lb):
+            ctx.fail(C, f"layout_changed_by_writing_to:{what}",
+                     f"after `x = layout.{what}; x += 1.25` the layout's traps are {got.tolist()} (were {exp.tolist()})")
 
 
 @st.composite
@@ -175,6 +204,25 @@ def check_register(case, ctx: Ctx):
     exp2 = [by_val[tuple(np.round(np.array(p, dtype=float), 6).tolist())] for p in given]
     if list(back2) != exp2:
         ctx.fail(C, "lookup_given", f"{back2} != {exp2}")
+    # ids that name no trap (negative, or beyond the last): refused, or else the same rule holds
+    # (the qubit sits on "that trap" and looking it up gives the same id back)
+    n = len(coords)
+    for bad in (-1, -n, n, n + 2):
+        claim = list(ids[:-1]) + [bad]
+        try:
+            rb = lay.define_register(*claim, qubit_ids=qids)
+        except Exception:  # noqa: BLE001 - refusing is the documented outcome
+            ctx.label("invalid_trap_id_refused")
+            continue
+        try:
+            pos = [np.array(rb.qubits[nm].as_array() if hasattr(rb.qubits[nm], "as_array") else rb.qubits[nm])
+                   for nm in names]
+            backb = list(lay.get_traps_from_coordinates(*pos))
+        except Exception as e:  # noqa: BLE001
+            backb = f"{type(e).__name__}"
+        if backb != claim:
+            ctx.fail(C, f"invalid_trap_id_accepted:{'negative' if bad < 0 else 'too_large'}",
+                     f"define_register{tuple(claim)} on {n} traps accepted; lookup gives {backb}")
     # a register built directly with layout= / trap_ids=: either refused or its recorded trap
     # ids are the ones the layout finds at its qubits' positions (same ids in another order,
     # or ids shifted by one, must not be recorded as given)
